@@ -65,7 +65,8 @@ class KaniUnit:
             if playback and failed:
                 # second pass (single job) to obtain concrete counterexamples for the failed harnesses
                 cmd2 = base + ["-Z", "concrete-playback", "--concrete-playback=print", "--output-format=terse"]
-                for k in failed:
+                # serial pass: keep it short, the remaining failures are reported without a concrete input
+                for k in failed[:int(os.environ.get("VERIF_KANI_PLAYBACK_MAX", "3"))]:
                     cmd2 += ["--harness", k]
                 rc2, so2, se2, wall2 = core.run(cmd2, cwd=dst, timeout=to)
                 res2 = KaniResult(self, hs, so2, se2, wall2, " ".join(cmd2), rc2)
